@@ -20,6 +20,7 @@ PROFILE = {
 
 def run(ctx, res):
     import scenarios
-    fam = [] if ctx.replay else scenarios.pick(scenarios.family_slices(), 200 if ctx.tier == "quick" else 10 ** 6, ctx.seed)
+    fam = [] if ctx.replay else (scenarios.pick(scenarios.family_slices(), 200 if ctx.tier == "quick" else 10 ** 6, ctx.seed)
+                                 + scenarios.family_names())
     pipeprop.run(ctx, res, "C02", PROFILE, n_quick=300, n_thorough=6000, probe_ids=(), extra_cases=fam)
     res.coverage["scenario_grid"] = {"family": "slice_head chains (n1, k1, n2, k2[, n3, k3])", "cases": len(fam)}
